@@ -791,6 +791,11 @@ ExitStatus Builder::Build(string* err) {
       }
 
       if (result.interrupted() || result.exit_status() == ExitInterrupted) {
+        // A command that was reaped with an "interrupted" status is no longer
+        // active in the runner, so Cleanup() cannot hand back its slot.
+        if (jobserver_.get() && result.command_completed())
+          jobserver_->Release(
+              std::move(result.GetCommandCompleted().edge->job_slot_));
         Cleanup();
         status_->BuildFinished();
         *err = "interrupted by user";
